@@ -213,7 +213,7 @@ Section NoScan.
       apply andb_true_iff in Hw as [Hw Hw2]. apply andb_true_iff in Hw as [Hv Hw1].
       apply relg_bind; [apply relg_num; apply IHe1; assumption|]. intros f.
       apply relg_bind; [apply relg_num; apply IHe2; assumption|]. intros t.
-      destruct ((0 <=? f)%Z && (0 <=? t)%Z && (f <=? t)%Z); [|apply relg_refl; discriminate].
+      cbv zeta. destruct ((0 <=? t)%Z && (Z.max f 0 <=? t)%Z); [|apply relg_refl; discriminate].
       apply with_var_rel; [assumption|apply wv_of_bool; assumption|discriminate].
     - (* EUn *)
       apply relg_bind_same; [apply IHe; assumption|]. intros x; apply eval_un_np.
